@@ -1184,6 +1184,13 @@ def check_call_envs(chk, facts, rule, fields=None):
         short = fn["qual"].replace(MOD + "::", "")
         for (label, callee, f, val) in seen:
             cands = allowed.get((short, label, callee), [])
+            if not cands and not any(k_[0] == short for k_ in allowed):
+                # a private helper that one function of the module calls, and that has no entries of its own: the code of some arms of that
+                # function moved here - what it hands to `callee` is reviewed where it came from (any arm of the owner)
+                from .common import syn_owner
+                own = (syn_owner(facts.syn, fn) or "").replace(MOD + "::", "")
+                if own and own != short:
+                    cands = [c for (f_, l_, c_), cs in allowed.items() if f_ == own and c_ == callee for c in cs]
             ok = any(c["field"] == f and c["value"] == val for c in cands)
             why = next((c["reason"] for c in cands if c["field"] == f and c["value"] == val), "")
             chk.ob(rule, f"arg:{short}|{label}|{callee}|{f}={val}", ok,
